@@ -9,7 +9,7 @@ LinkFaults == {"sender", "driver"}
 Bug_syncOpenNoWake == {"syncOpenNoWake"}
 Bug_errInSender == {"errInSender", "stopJoins"}
 Bug_pingSelfJoin == {"errInSender", "stopJoins", "pingSelfJoin"}
-Bug_sendNoFinally == {"sendReread", "sendNoFinally"}
+Bug_sendNoFinally == {"errInSender", "stopJoins", "pingSelfJoin", "sendNoFinally"}
 Bug_sendReread == {"sendReread"}
 Bug_dispReread == {"dispReread"}
 Bug_closeReread == {"closeReread", "errStateRace"}
